@@ -317,3 +317,64 @@ pub fn save_witnesses(p: &'static Params, ws: &[(String, [u8; 32], Vec<Poly>, f6
     let v = json!({"set": p.id, "family": "sparse-coset (DESIGN 3.2)", "witnesses": ws.iter().map(|(n, rho, z, s)| json!({"name": n, "rho": hex(rho), "z": z_to_json(z), "row_sum_over_q": s})).collect::<Vec<_>>()});
     std::fs::write(witness_path(p), serde_json::to_string_pretty(&v).unwrap()).expect("write witness");
 }
+
+// ---------------------------------------------------------------- slot-maximisation family (through verify())
+
+/// Build (pk, signature) bytes for which ONE coefficient (row k, slot n) of the vector handed to the inverse
+/// transform inside verification, sum_j mont(A[k][j][n] * to_mont(z_hat_j[n])) - mont(c_hat[n] * t1_2d_hat_mont[k][n]),
+/// has all l+1 terms just above +q/2 (sign = +1) or below -q/2 (sign = -1). z_j are constant polynomials (so every
+/// NTT slot equals the constant), each chosen by COMPLETE enumeration of its range; t1[k] is a constant b0 chosen over
+/// all 1024 values x a list of challenge seeds. The signature is not valid (c_tilde is arbitrary); FIPS 204 rejects it.
+pub fn slot_max_case(p: &'static Params, rho: &[u8; 32], k: usize, n: usize, sign: i64) -> (VCase, i64) {
+    let a_hat = refmodel::expand_a(p, rho);
+    let g = p.gamma1 - p.beta - 1;
+    let tm = |a: i64| i64::from(hk::partial_reduce64(a << 32));
+    let mut z = vec![POLY0; p.l];
+    let mut total = 0i64;
+    for j in 0..p.l {
+        let coeff = i64::from(a_hat[k][j][n]);
+        let best = (-g..=g).into_par_iter().map(|a| (i64::from(hk::mont_reduce(coeff * tm(a))) * sign, a)).max().unwrap();
+        z[j][0] = best.1 as i32;
+        total += best.0;
+    }
+    // challenge seed x t1 constant
+    let mut best_t: (i64, usize, i64) = (i64::MIN, 0, 0);
+    for ci in 0..48usize {
+        let c_tilde = refmodel::shake256(&[b"slot-max", &(ci as u32).to_le_bytes()], p.ctilde_len());
+        let c = refmodel::sample_in_ball(p, &c_tilde);
+        let c_hat_n = i64::from(hk::ntt(&[c])[0][n]);
+        for b0 in 0..1024i64 {
+            let x = i64::from(hk::mont_reduce(tm(b0) << 13));
+            let t = tm(x);
+            let term = -i64::from(hk::mont_reduce(c_hat_n * t)) * sign;
+            if term > best_t.0 {
+                best_t = (term, ci, b0);
+            }
+        }
+    }
+    total += best_t.0;
+    let c_tilde = refmodel::shake256(&[b"slot-max", &(best_t.1 as u32).to_le_bytes()], p.ctilde_len());
+    let mut t1 = vec![POLY0; p.k];
+    t1[k][0] = best_t.2 as i32;
+    let pk = refmodel::pk_encode(p, rho, &t1);
+    let sig = refmodel::sig_encode(p, &c_tilde, &z, &vec![POLY0; p.k]);
+    (
+        VCase { class: format!("D7c:slot-max:row{k}:slot{n}:sign{sign}"), pk: Arc::new(pk), mode: Mode::Pure, msg: b"slot-max".to_vec(), ctx: vec![], sig, intent: None },
+        total,
+    )
+}
+
+pub fn slot_max_cases(p: &'static Params, thorough: bool) -> Vec<(VCase, i64)> {
+    let rho = [0x42u8; 32];
+    let slots: Vec<usize> = if thorough { vec![0, 1, 66, 130, 242, 255] } else { vec![0, 130] };
+    let mut out = Vec::new();
+    for &n in &slots {
+        for sign in [1i64, -1] {
+            out.push(slot_max_case(p, &rho, 0, n, sign));
+            if thorough {
+                out.push(slot_max_case(p, &rho, p.k - 1, n, sign));
+            }
+        }
+    }
+    out
+}
